@@ -6,8 +6,8 @@ from workers import Worker
 
 ID = "C01"
 LEVEL = "other"
-GEN = ["RxGen", "UnicodeGen", "InlineGen", "BlockGen", "UtilGen", "NormalizeGen"]
-COQ = ["Props/C01.vo"]
+GEN = ["RxGen", "UnicodeGen", "InlineGen", "BlockGen", "UtilGen", "NormalizeGen", "MdRenderGen"]
+COQ = ["Props/C01.vo", "Props/C01_rst.vo"]
 EXPLANATION = (
     "PARTIAL proof + isolated-worker oracle. Proved (coq/Props/C01.v): (1) every regular-expression operation of the model "
     "terminates (the engine is a structurally recursive total function; RxSpec.m_spec); (2) for the generic scanner loop "
@@ -177,9 +177,11 @@ def correspondence(ctx):
     a = corr_inline.run(ctx, ctx.n(3000, 50000))
     b = corr_block.run(ctx, ctx.n(1500, 30000))
     c = corr_doc.run(ctx, ctx.n(1500, 30000))
-    return {"evaluations": a["evaluations"] + b["evaluations"] + c["evaluations"],
-            "disagreements": (a["disagreements"] + b["disagreements"] + c["disagreements"])[:20],
-            "parts": {"inline": a["evaluations"], "block": b["evaluations"], "document": c["evaluations"]},
+    import corr_rst
+    d = corr_rst.run(ctx, ctx.n(600, 12000))      # the model of the RST renderer, which C01_rst.v is about
+    return {"evaluations": a["evaluations"] + b["evaluations"] + c["evaluations"] + d["evaluations"],
+            "disagreements": (a["disagreements"] + b["disagreements"] + c["disagreements"] + d["disagreements"])[:20],
+            "parts": {"inline": a["evaluations"], "block": b["evaluations"], "document": c["evaluations"], "RST renderer": d["evaluations"]},
             "samples": a["samples"] + b["samples"]}
 
 
